@@ -31,6 +31,8 @@ CONSTANTS
     ServerName,     \* server.server_name
     ServerPort,     \* server.server_port (advertised port)
     HiCode,         \* percent code of the representative chosen for "^" ("FF", "E9", ...)
+    BlockBytes,     \* bytes of the block classes "{" and "}" (gamma writes that many)
+    DeepDepth,      \* levels of the deep tree kind
     Fixes           \* which of the proposed repairs the code under test has: subset of {"wap", "gemini", "spartan", "mapfile"}
 
 cTAB  == "\t"
@@ -38,6 +40,12 @@ cCR   == "\r"
 cLF   == "\n"
 cCRLF == "\r\n"
 HI   == "^"
+\* LENGTH classes: one abstract character stands for a block of BlockBytes bytes.  "{" = a run of non-ASCII
+\* (valid UTF-8) characters, every byte of which a URL-based protocol percent-codes into three; "}" = a run of
+\* ASCII letters.  With them names of ~250 bytes, selectors up to PATH_MAX and request lines of 1 .. 12+ KiB are
+\* ordinary short strings for TLC; Bytes() gives the concrete length.
+BLK  == "{"
+ABLK == "}"
 REPL == "`"
 cWS   == PyWS                                    \* what Python's str.strip() removes (Text!PyWS)
 
@@ -46,10 +54,10 @@ cWS   == PyWS                                    \* what Python's str.strip() re
 
 SafeChars == {"a","b","c","d","e","f","g","h","i","j","k","l","m","n","o","p","q","r","s","t","u","v","w","x","y","z",
               "A","B","C","D","E","F","G","H","I","J","K","L","M","N","O","P","Q","R","S","T","U","V","W","X","Y","Z",
-              "0","1","2","3","4","5","6","7","8","9","_",".","-","~","/"}
+              "0","1","2","3","4","5","6","7","8","9","_",".","-","~","/", ABLK}
 
 \* written as CASE expressions (TLC re-evaluates function-valued definitions on every use: measured 70 states/s)
-Coded == {" ", "!", "\"", "#", "$", "%", "&", "'", "(", ")", "*", "+", ",", ":", ";", "<", "=", ">", "?", "@", "[", "\\", "]", "{", "|", "}", "\t", "\n", "\r", HI, REPL}
+Coded == {" ", "!", "\"", "#", "$", "%", "&", "'", "(", ")", "*", "+", ",", ":", ";", "<", "=", ">", "?", "@", "[", "\\", "]", BLK, "|", "\t", "\n", "\r", HI, REPL}
 CodeOf(c) ==
     CASE c = " " -> "20"
       [] c = "!" -> "21"
@@ -74,9 +82,8 @@ CodeOf(c) ==
       [] c = "[" -> "5B"
       [] c = "\\" -> "5C"
       [] c = "]" -> "5D"
-      [] c = "{" -> "7B"
+      [] c = BLK -> "{{"                 \* the percent-coded block (3 * BlockBytes characters on the wire)
       [] c = "|" -> "7C"
-      [] c = "}" -> "7D"
       [] c = "\t" -> "09"
       [] c = "\n" -> "0A"
       [] c = "\r" -> "0D"
@@ -88,7 +95,7 @@ HexLower(h) == LET l(c) == CASE c = "A" -> "a" [] c = "B" -> "b" [] c = "C" -> "
                IN l(Ch(h, 1)) \o l(Ch(h, 2))
 
 \* decoding: every code above in both letter cases plus the codes of a few safe characters; other pairs stay literal
-Decodable(h) == h \in {"20", "21", "22", "23", "24", "25", "26", "27", "28", "29", "2A", "2a", "2B", "2b", "2C", "2c", "3A", "3a", "3B", "3b", "3C", "3c", "3D", "3d", "3E", "3e", "3F", "3f", "40", "5B", "5b", "5C", "5c", "5D", "5d", "7B", "7b", "7C", "7c", "7D", "7d", "09", "0A", "0a", "0D", "0d", "41", "61", "62", "2F", "2f", "2E", "2e", "2D", "2d", "5F", "5f", "7E", "7e", "30", "31"} \/ h = HiCode \/ h = HexLower(HiCode)
+Decodable(h) == h \in {"20", "21", "22", "23", "24", "25", "26", "27", "28", "29", "2A", "2a", "2B", "2b", "2C", "2c", "3A", "3a", "3B", "3b", "3C", "3c", "3D", "3d", "3E", "3e", "3F", "3f", "40", "5B", "5b", "5C", "5c", "5D", "5d", "7C", "7c", "09", "0A", "0a", "0D", "0d", "41", "61", "62", "2F", "2f", "2E", "2e", "2D", "2d", "5F", "5f", "7E", "7e", "30", "31", "{{"} \/ h = HiCode \/ h = HexLower(HiCode)
 DecodeOf(h) ==
     CASE h = "20" -> " "
       [] h = "21" -> "!"
@@ -125,12 +132,9 @@ DecodeOf(h) ==
       [] h = "5c" -> "\\"
       [] h = "5D" -> "]"
       [] h = "5d" -> "]"
-      [] h = "7B" -> "{"
-      [] h = "7b" -> "{"
+      [] h = "{{" -> BLK
       [] h = "7C" -> "|"
       [] h = "7c" -> "|"
-      [] h = "7D" -> "}"
-      [] h = "7d" -> "}"
       [] h = "09" -> "\t"
       [] h = "0A" -> "\n"
       [] h = "0a" -> "\n"
@@ -177,6 +181,13 @@ FormEncode(s) == ReplaceAll(ReplaceAll(PctQuote(s), "/", "%2F"), "%20", "+")
 QueryEncode(s) == ReplaceAll(PctQuote(s), "/", "%2F")
 
 QuoteLemma(s) == PctUnquote(PctQuote(s)) = s
+
+\* concrete length in bytes of abstract text (block classes expanded; U+FFFD is three bytes)
+Bytes(s) ==            \* counted, not recursed over (request lines with header blocks are long: TLC's stack)
+    LET nq == Cardinality({i \in 1..(Len(s) - 2) : SubSeq(s, i, i + 2) = "%{{"})        \* percent-coded blocks
+        nb == Cardinality({i \in 1..Len(s) : Ch(s, i) \in {BLK, ABLK}})                \* block characters (2 per coded block)
+        nr == Cardinality({i \in 1..Len(s) : Ch(s, i) = REPL})
+    IN (Len(s) - nb - nq - nr) + 3 * nr + (nb - 2 * nq) * BlockBytes + nq * 3 * BlockBytes
 
 ------------------------------------------------------------------------------
 (* Selector normalisation: protocols/base.py slashnormalize                                *)
@@ -258,13 +269,15 @@ Follow(p, t, base, q) ==
             Rq("gemini://" \o ServerName \o RefPath(base, t.href) \o (IF q # "" THEN "?" \o QueryEncode(q) ELSE "") \o cCRLF,
                "", tls)
       [] p = "S" ->
-            Rq(ServerName \o " " \o RefPath(base, t.href) \o " " \o ToString(Len(q)) \o cCRLF, q, tls)
+            Rq(ServerName \o " " \o RefPath(base, t.href) \o " " \o ToString(Bytes(q)) \o cCRLF, q, tls)      \* content-length in bytes
 
 \* what a real browser / WAP gateway adds to the request line: the HTTP-family views are exercised both bare
 \* and with this header block (http.py reads the headers; C06 must hold for what real clients send)
 BrowserHeaders == "Host: localhost" \o cCRLF \o "Accept: text/html,application/xhtml+xml,*/*;q=0.8" \o cCRLF
                   \o "Accept-Encoding: gzip, deflate" \o cCRLF \o "User-Agent: Mozilla/5.0 (verif)" \o cCRLF
 WithHeaders(rq, hdr) == IF hdr THEN [rq EXCEPT !.rest = BrowserHeaders \o rq.rest] ELSE rq
+
+ReqBytes(rq) == Bytes(rq.line) + Bytes(rq.rest)          \* what the client puts on the wire
 
 \* the reference by which a client of p asks for the root menu
 RootRef(p) == IF p \in GopherViews THEN "" ELSE IF p = "W" THEN WapTop \o "/" ELSE "/"
@@ -411,10 +424,18 @@ Subj(c) == "/" \o FsName(c)
 InnerName(c) == IF c.ik = "mapfile" THEN c.m \o ".gophermap" ELSE c.m
 InnerSel(c) == Subj(c) \o "/" \o InnerName(c)
 MsgSel(c, flag) == Subj(c) \o "|" \o flag \o "1"
+\* kind "deep": DeepDepth nested directories, each named c.n (block names: ~2 * BlockBytes bytes), a file "leaf" at
+\* the bottom.  Level i has a selector of about i * Bytes(c.n) bytes raw and three times that as a URL path, so one
+\* crawl sends request lines that straddle every power-of-two-ish limit a reader could have up to PATH_MAX * 3.
+RECURSIVE DeepPath(_, _)
+DeepPath(c, i) == IF i = 0 THEN "" ELSE DeepPath(c, i - 1) \o "/" \o c.n
+DeepLevel(c, s) == LET ls == {i \in 1..DeepDepth : DeepPath(c, i) = s} IN IF ls = {} THEN 0 ELSE CHOOSE i \in ls : TRUE
 
 Stat(c, sel) ==          \* "dir" / "file" / "none": VFS_Real.stat(root + selector minus one trailing slash)
     LET s == IF Len(sel) > 0 /\ Last1(sel) = "/" THEN SubSeq(sel, 1, Len(sel) - 1) ELSE sel IN
     IF s = "" THEN "dir"
+    ELSE IF c.k = "deep" THEN (IF DeepLevel(c, s) > 0 THEN "dir"
+                               ELSE IF s = DeepPath(c, DeepDepth) \o "/leaf" \/ s \in Anchors THEN "file" ELSE "none")
     ELSE IF s = Subj(c) THEN (IF c.k \in {"dir", "mapdir", "maildir"} THEN "dir" ELSE "file")
     ELSE IF c.k \in {"dir", "mapdir"} /\ s = InnerSel(c) THEN (IF c.ik = "mapfile" THEN "file" ELSE c.ik)
     ELSE IF c.k = "dir" /\ c.ik = "mapfile" /\ s = Subj(c) \o "/leaf" THEN "file"
@@ -501,9 +522,12 @@ Dirs(c, hl) == {"/"} \cup (IF Serve(c, Subj(c), hl).obj = "menu" THEN {Subj(c)} 
                      \cup (IF c.k \in {"dir", "mapdir", "zip"} /\ c.ik \in {"dir", "mapfile"}
                               /\ Serve(c, InnerSel(c), hl).obj = "menu" THEN {InnerSel(c)} ELSE {})
                      \cup (IF c.k = "maildir" /\ Serve(c, Subj(c), hl).by = "UMNDirHandler" THEN MaildirParts(c) ELSE {})
+                     \cup (IF c.k = "deep" THEN {DeepPath(c, i) : i \in 1..DeepDepth} ELSE {})
 
 ListingAll(c, d, hl) ==
     IF d = "/" THEN {Entry(TypeOf(c, Subj(c), hl), FsName(c), Subj(c))} \cup {Entry("0", "zz", a) : a \in Anchors}
+    ELSE IF c.k = "deep" THEN (IF DeepLevel(c, d) = DeepDepth THEN {Entry("0", "leaf", d \o "/leaf")}
+                               ELSE {Entry("1", c.n, d \o "/" \o c.n)})
     ELSE IF d = Subj(c) THEN
         LET by == Serve(c, d, hl).by IN
         CASE by = "MaildirFolderHandler" -> {Entry("0", "subject", MsgSel(c, "/MAILDIR-MESSAGE/"))}
@@ -537,6 +561,7 @@ Advertised(p, e) == IF p \in GopherViews \cup {"H", "HS"} THEN (IF e.type = "1" 
 \* references under which a client of p knows directory d (root, or reached through its link)
 BaseRef(p, c, d, hl) ==
     IF d = "/" THEN RootRef(p)
+    ELSE IF c.k = "deep" THEN RefOf(p, Target(p, Entry("1", c.n, d)), RootRef(p))      \* references are path-absolute
     ELSE IF d = Subj(c) THEN RefOf(p, Target(p, Entry("1", FsName(c), Subj(c))), RootRef(p))
     ELSE RefOf(p, Target(p, Entry("1", c.m, InnerSel(c))),
                RefOf(p, Target(p, Entry("1", FsName(c), Subj(c))), RootRef(p)))
